@@ -41,6 +41,8 @@ CLAIMS = {
          'Panics inside dependencies (serde, zstd, ring, reqwest, std thread spawn) cannot be modelled; the JSON/YAML text level is abstracted (JGarbage).'),
  'C15': ('proof', 'PARTIAL. Over tables regenerated from the Rust sources, the generated header and the Dart bindings on every run: C15_status_constants, C15_status_discriminants, C15_model_status_codes, C15_signatures, C15_structs, C15_layouts (LP64/ILP32/LLP64), C15_dart_handles_all_statuses, plus a small ownership ledger model. Checked outside the proof: nm -D of the cdylib, every status provoked through the C API, one scenario under valgrind memcheck.',
          'Translator is regex-level and fails loudly on unknown shapes; real allocator behaviour is runtime (valgrind), not proved.'),
+ 'C04': ('proof', 'Fault-monad model (theories/Fault.v: every operation as a sequence of mutating micro-steps with three semantics selected by a plan). C04_crash_states + C04_next_launch_safe: a process death before ANY system call of ANY call (or of the restart init) of the running release leaves a disk from which the next launch selects nothing, or an intact patch that was not banned before and whose launch was not in progress; C04_fault_safe: under ANY plan (death or one failing call, execution continuing) everything selected afterwards, in-process and after restart, is intact and not banned; C04_release_change_safe: under ANY plan the first launch of another release never lets this process or the next launch hand out a patch. Correspondence: LD_PRELOAD shim kills the real process before each mutating syscall of each target call, or fails it with EIO once; every real crash/fault state must be among the model states (all k, all partial-deletion subsets) and recoveries must agree.',
+         'Assumes: a strict prefix of a pretty-printed JSON object never parses; rename is atomic; kill loses no completed system call (not power loss). The monadic model is tied to the code by the crash-state inclusion check (not by proof) and to the pure model by running both on every target.'),
 }
 NA = {}
 def main():
